@@ -392,9 +392,21 @@ func rangeHeader(idx ssa.Value) *ssa.BasicBlock {
 		if k, ok := constInt(phi.Edges[1]); ok && k != 0 {
 			return nil
 		}
-		if cmp, ok := ifCond(phi.Block()).(*ssa.BinOp); ok && cmp.Op == token.LSS && cmp.X == ssa.Value(phi) {
-			if call, ok := cmp.Y.(*ssa.Call); ok {
-				if bi, ok := call.Call.Value.(*ssa.Builtin); ok && bi.Name() == "len" {
+		if cmp, ok := ifCond(phi.Block()).(*ssa.BinOp); ok && cmp.X == ssa.Value(phi) {
+			isLen := func(v ssa.Value) bool {
+				call, ok := v.(*ssa.Call)
+				if !ok {
+					return false
+				}
+				bi, ok := call.Call.Value.(*ssa.Builtin)
+				return ok && bi.Name() == "len"
+			}
+			// i < len(s)   or   i <= len(s)-1
+			if cmp.Op == token.LSS && isLen(cmp.Y) {
+				return phi.Block()
+			}
+			if sub, ok := cmp.Y.(*ssa.BinOp); ok && cmp.Op == token.LEQ && sub.Op == token.SUB && isLen(sub.X) {
+				if k, ok := constInt(sub.Y); ok && k == 1 {
 					return phi.Block()
 				}
 			}
